@@ -281,8 +281,8 @@ theorem lib_correct_partial (g : Graph) (hw : ∀ e ∈ g.arcs, 0 ≤ e.2.2)
 iteration order of the arc maps: an answer `ok d p` is a least-cost walk starting with an arc of
 `src`; `ErrNoPath` means no walk cheaper than the library's infinity exists; the "loop detected"
 error never occurs; `bestPath` always reaches `src` (the predecessor pointers are acyclic even with
-zero-cost arcs: ghost time stamps). Only termination of the main loop within the fuel is not
-covered (`outOfFuel`). -/
+zero-cost arcs: ghost time stamps). For an arbitrary fuel; `lib_shortest_terminates` below shows
+that `outOfFuel` does not occur with the fuel the port uses. -/
 theorem lib_shortest_correct (g : Graph) (hw : ∀ e ∈ g.arcs, 0 ≤ e.2.2)
     (hwf : ∀ e ∈ g.arcs, e.2.1 < g.n) (src dest : Nat) (hs : src < g.n)
     (hsd : src ≠ dest) (fuel : Nat) :
@@ -295,17 +295,34 @@ theorem lib_shortest_correct (g : Graph) (hw : ∀ e ∈ g.arcs, 0 ≤ e.2.2)
     | .badPred => False :=
   Lemmas.libShortest_spec g hw hwf hs hsd fuel
 
-/-- **`computeRoutingTable` with the ported library loop** (`Shortest(0, i)`, `Path[1]`) yields a
-table with the property, for every graph with weights ≥ 0 — provided the loop terminates within
-the port's fuel (observed on every explored instance, not proved) and costs stay below the
-library's infinity `MaxInt64 - 2`. -/
-theorem lib_correct (g : Graph) (hw : ∀ e ∈ g.arcs, 0 ≤ e.2.2) (hwf : ∀ e ∈ g.arcs, e.2.1 < g.n)
-    (hcost : ∀ d c, Walk g 0 d c → ∃ c', Walk g 0 d c' ∧ c' < infDist)
-    (hterm : ∀ d, d < g.n → d ≠ 0 →
-      libShortest (libFuel g) g.n (adjOf g.arcs) 0 d ≠ .outOfFuel) :
-    MinCostNextHop g (lookup (libTable g)) :=
-  Lemmas.libTable_correct g hw hwf hcost hterm
+/-- **The ported loop terminates by itself** (weights ≥ 0): twice the sum of all labels plus the
+length of the work list drops in every iteration, and the port's fuel is that measure's initial
+bound — so the fuel, which the Go loop does not have, is never what stops the port. -/
+theorem lib_shortest_terminates (g : Graph) (hw : ∀ e ∈ g.arcs, 0 ≤ e.2.2)
+    (hwf : ∀ e ∈ g.arcs, e.2.1 < g.n) (src dest : Nat) (hsd : src ≠ dest) :
+    libShortest (libFuel g) g.n (adjOf g.arcs) src dest ≠ .outOfFuel :=
+  Lemmas.libShortest_terminates g hw hwf hsd
 
+/-- **`computeRoutingTable` with the ported library loop** (`Shortest(0, i)`, `Path[1]`) yields a
+table with the property, for every graph with weights ≥ 0 and every iteration order of the arc
+maps — provided costs stay below the library's infinity `MaxInt64 - 2`. -/
+theorem lib_correct (g : Graph) (hw : ∀ e ∈ g.arcs, 0 ≤ e.2.2) (hwf : ∀ e ∈ g.arcs, e.2.1 < g.n)
+    (hcost : ∀ d c, Walk g 0 d c → ∃ c', Walk g 0 d c' ∧ c' < infDist) :
+    MinCostNextHop g (lookup (libTable g)) :=
+  Lemmas.libTable_correct g hw hwf hcost
+
+/-- The cost hypothesis of `lib_correct` follows from a finite check: the Bellman–Ford distances
+from the node itself are below the library's infinity. -/
+theorem lib_correct_cost_hypothesis (g : Graph) (hw : ∀ e ∈ g.arcs, 0 ≤ e.2.2)
+    (hwf : ∀ e ∈ g.arcs, e.2.1 < g.n) (hn : 0 < g.n)
+    (hb : ∀ d, d < g.n → ((bf g 0).get d).all (fun c => decide (c < infDist)) = true) :
+    ∀ d c, Walk g 0 d c → ∃ c', Walk g 0 d c' ∧ c' < infDist :=
+  Lemmas.cost_bound_of_bf hw hwf hn hb
+
+/-! Non-vacuity of the hypotheses of `lib_correct` on the example graph. -/
+example : ∀ e ∈ exGraph.arcs, 0 ≤ e.2.2 ∧ e.2.1 < exGraph.n := by decide
+example : ∀ d, d < exGraph.n →
+    ((bf exGraph 0).get d).all (fun c => decide (c < infDist)) = true := by decide
 example : refTable exGraph = [(1, 1), (2, 2), (3, 1)] := by decide
 example : libTable exGraph = [(1, 1), (2, 2), (3, 1)] := by decide
 example : libShortest (libFuel exGraph) 5 (adjOf exGraph.arcs) 0 3 = .ok 2000 [0, 1, 3] := by decide
@@ -327,20 +344,18 @@ becomes a negative cost. -/
 theorem edge_cost_future_negative_witness : edgeCost 1000 3000 = -2000 := by decide
 
 /-- **After each recomputation** (all loss times in the past): the graph built from `peers` and
-`receivedData` has costs ≥ 0 and stays inside the node index, hence the reference table on it has
-the property, and so has the table of the ported library loop whenever that loop terminates. -/
+`receivedData` has costs ≥ 0 and stays inside the node index; hence the table of the ported
+library loop on it has the property (costs below the library's infinity), and so has the
+reference table. -/
 theorem routing_table_min_cost (s : State) (now : Nat) (hp : Lemmas.PastLosses now s)
     (hnow : now < two64 / 2) (hix : s.indexNode ≠ []) :
     MinCostNextHop (buildGraph now s) (lookup (refTable (buildGraph now s))) ∧
     ((∀ d c, Walk (buildGraph now s) 0 d c → ∃ c', Walk (buildGraph now s) 0 d c' ∧ c' < infDist) →
-     (∀ d, d < (buildGraph now s).n → d ≠ 0 →
-        libShortest (libFuel (buildGraph now s)) (buildGraph now s).n
-          (adjOf (buildGraph now s).arcs) 0 d ≠ .outOfFuel) →
      MinCostNextHop (buildGraph now s) (lookup (libTable (buildGraph now s)))) := by
   have hw := Lemmas.buildGraph_nonneg hp hnow
   have hwf := Lemmas.buildGraph_wf (now := now) hix
-  refine ⟨Lemmas.refTable_correct _ hw hwf ?_, fun hcost hterm =>
-    Lemmas.libTable_correct _ hw (fun e he => (hwf e he).2) hcost hterm⟩
+  refine ⟨Lemmas.refTable_correct _ hw hwf ?_, fun hcost =>
+    Lemmas.libTable_correct _ hw (fun e he => (hwf e he).2) hcost⟩
   exact List.length_pos_iff.mpr hix
 
 /-- The table is rebuilt from scratch: the old table has no influence. -/
